@@ -15,6 +15,7 @@ import (
 const (
 	ghostSendCount = "sendcount@(Array Int Int)"
 	ghostClosed    = "closed@(Array Int Bool)"
+	ghostRecvCount = "recvcount@(Array Int Int)"
 )
 
 func (e *Enc) ghostGet(st *State, key string) string {
@@ -350,8 +351,8 @@ func (e *Enc) syncPoint(fr *frame, st *State, why string) {
 		if strings.HasPrefix(k, "visited_") || strings.HasPrefix(k, "strpos_") {
 			continue
 		}
-		if k == ghostSendCount {
-			continue // only this goroutine's sends are counted
+		if k == ghostSendCount || k == ghostRecvCount {
+			continue // only this goroutine's sends / receives are counted
 		}
 		st.ghost[k] = e.q.fresh("gh_"+k, e.q.ghostSort(k))
 	}
@@ -410,6 +411,8 @@ func (e *Enc) recordSend(fr *frame, st *State, ch, val Value, cond string, pos t
 func (e *Enc) send(fr *frame, st *State, x *ssa.Send) {
 	ch := fr.val(st, x.Chan)
 	v := fr.val(st, x.X)
+	// a plain send on a nil channel blocks forever
+	e.oblige(st, "nohang", "nil-chan-send", "(not (= "+ch.term+" 0))", x.Pos())
 	e.recordSend(fr, st, ch, v, "true", x.Pos())
 	e.noteBlocking(fr, "send", x.Pos())
 	e.syncPoint(fr, st, "send")
@@ -417,6 +420,9 @@ func (e *Enc) send(fr *frame, st *State, x *ssa.Send) {
 
 func (e *Enc) recv(fr *frame, st *State, x *ssa.UnOp, ch Value) Value {
 	e.noteBlocking(fr, "recv", x.Pos())
+	// ghost: number of receive operations completed on each channel by this function
+	rc := e.ghostGet(st, ghostRecvCount)
+	e.ghostSet(st, ghostRecvCount, store(rc, ch.term, "(+ "+sel(rc, ch.term)+" 1)"))
 	e.syncPoint(fr, st, "recv")
 	et := ch.typ.Underlying().(*types.Chan).Elem()
 	v := e.freshValue(st, fr.prefix+x.Name(), et)
@@ -425,7 +431,9 @@ func (e *Enc) recv(fr *frame, st *State, x *ssa.UnOp, ch Value) Value {
 		e.recvSiteFacts(fr, st, ch, v, ok, x.Pos())
 		return Value{typ: x.Type(), tuple: []Value{v, {term: ok, typ: types.Typ[types.Bool]}}}
 	}
-	e.recvSiteFacts(fr, st, ch, v, "true", x.Pos())
+	// a receive yields a value that was sent, or the zero value if the channel is closed
+	ok := e.q.fresh(fr.prefix+x.Name()+"_ok", sortBool)
+	e.recvSiteFacts2(fr, st, ch, v, ok, "true", x.Pos())
 	return v
 }
 
@@ -434,10 +442,21 @@ func (e *Enc) recv(fr *frame, st *State, x *ssa.UnOp, ch Value) Value {
 // evidence) hold when the receive delivered a value (ok); "stable" locals are
 // from now on preserved across synchronisation points.
 func (e *Enc) recvSiteFacts(fr *frame, st *State, ch, val Value, ok string, pos token.Pos) {
+	e.recvSiteFacts2(fr, st, ch, val, ok, ok, pos)
+}
+
+// recvSiteFacts2: okInv gates the channel-value invariant (a closed channel
+// yields the zero value instead); okClause gates the contract's explicit
+// recvsite assumptions (which speak about the value actually obtained).
+func (e *Enc) recvSiteFacts2(fr *frame, st *State, ch, val Value, okInv, ok string, pos token.Pos) {
 	if len(e.v.db.ChanInvs) > 0 {
 		if t := e.chanInvTerm(st, val.typ, val); t != "true" {
-			st.assume(implies(ok, t))
+			st.assume(implies(okInv, t))
 		}
+	}
+	if okInv != "true" && val.term != "" && len(val.tuple) == 0 {
+		// not delivered (channel closed, or another select case chosen): zero value
+		st.assume(implies(not(okInv), eq(val.term, e.u.zero(val.typ))))
 	}
 	con := e.contract
 	if con == nil || fr.inlined || fr.fn != e.top {
